@@ -182,7 +182,7 @@ class Carrier(Pair):
 
 
 def jobs(tier):
-    n = 3
+    n = 3 if tier == "quick" else 4
     M = c08.MemberShape
     out = []
     data_bases = [
@@ -238,7 +238,7 @@ ASSUMPTIONS = ["carrier models expose exactly the attributes ioos_qc inspects (d
 
 
 def bounds(tier):
-    return {"series_length": 3, "data_carriers": ["ndarray float64 (reference)"] + DATA_CARRIERS,
+    return {"series_length": "3 (quick) / 4 (thorough)", "data_carriers": ["ndarray float64 (reference)"] + DATA_CARRIERS,
             "time_carriers": ["datetime64[ns] (reference)"] + TIME_CARRIERS, "pairs": "each carrier against the reference"}
 
 
@@ -246,5 +246,5 @@ LEVEL_TEXT = ("bounded symbolic model checking of ioos_qc's own input dispatch: 
               "representation and on an alternative carrier of the same logical series (all values / missing placements symbolic) "
               "and z3 proves the two flag vectors equal; the carriers' library conversions are stubs with stated contracts, "
               "replayed through the real carriers on every path witness")
-LEVEL_NOTE = "n=3; conversions inside numpy/pandas/dask are modelled, not encoded; witnesses run through the real carriers"
+LEVEL_NOTE = "n=3/4; conversions inside numpy/pandas/dask are modelled, not encoded; witnesses run through the real carriers"
 TECHNIQUE = "relational symbolic execution of the real Python source over modelled numpy/pandas carriers + z3; witness replay through real carriers"
